@@ -147,7 +147,7 @@ def parse_embedded_scalar(scalar, version=LATEST_VER):
         if Version.nearest(version) < VER_3_0:
             raise ValueError('XStr is not supported in Haystack version %s' \
                              % version)
-        return XStr(*scalar[2:].split(':'))
+        return XStr(*scalar[2:].split(':', 1))
 
     # Is it a reference?
     match = REF_RE.match(scalar)
